@@ -247,7 +247,7 @@ fn describe(s: &Schedule) -> String {
 pub fn run(ctx: &Ctx) -> Report {
   let mut report = Report::new("C12", &ctx.tier, "model_checking");
   let n = if ctx.thorough() { 6 } else { 4 };
-  let budget = Budget::new(if ctx.thorough() { 3000 } else { 50 });
+  let budget = Budget::new(if ctx.thorough() { 1500 } else { 50 });
 
   // work items = (history index, schedule index); workers build the family themselves
   let probe = Worker::new(999);
